@@ -1,1 +1,252 @@
-From MrVerif Require Import Model.CG Model.PowerIter.
+(* C19 - proofs about the power-iteration model (Model/PowerIter.v):
+   part A (any field): the whole run is invariant under scaling the start vectors by c <> 0;
+   part B (reals): Cauchy-Schwarz for finite sums, the squared estimate never exceeds any s with |Ax|^2 <= s|x|^2,
+                   and the squared estimates never decrease along u, Gu, G(Gu), ...;
+   part C (reals): the combination rule of LinearOperatorMatrix.operator_norm. *)
+From Coq Require Import List Bool Arith Lia Field.
+Import ListNotations.
+From MrVerif Require Import Model.CG Model.PowerIter Proofs.CGProofs.
+
+Section ScaleFree.
+  Variable F : Type.
+  Variables (f0 f1 : F) (fadd fmul fsub : F -> F -> F) (fopp : F -> F) (fdiv : F -> F -> F) (finv : F -> F).
+  Hypothesis Fth : field_theory f0 f1 fadd fmul fsub fopp fdiv finv (@eq F).
+  Add Field Ff2 : Fth.
+  Variable feqb : F -> F -> bool.
+  Hypothesis feqb_spec : forall a b, feqb a b = true <-> a = b.
+  Variable close : F -> F -> bool.
+
+  Notation vec := (list F).
+  Notation "c *v u" := (vscale F fmul c u) (at level 40, left associativity).
+  Notation "<< u , v >>" := (dot F f0 fadd fmul u v) (at level 0).
+  Notation rq' := (rq F f0 fadd fmul fdiv feqb).
+
+  Definition homogeneous (G : vec -> vec) : Prop := forall c u, G (c *v u) = c *v G u.
+
+  Lemma feqb_false a b : a <> b -> feqb a b = false.
+  Proof. intros H. destruct (feqb a b) eqn:E; [apply feqb_spec in E; contradiction|reflexivity]. Qed.
+
+  Lemma mul_nonzero a b : a <> f0 -> b <> f0 -> fmul a b <> f0.
+  Proof.
+    intros Ha Hb Hab. apply Hb. transitivity (fdiv (fmul a b) a); [field; exact Ha|]. rewrite Hab. field. exact Ha.
+  Qed.
+
+  Lemma dot_scale_both c u w : << c *v u, c *v w >> = fmul (fmul c c) << u, w >>.
+  Proof.
+    rewrite (dot_vscale_l F _ _ _ _ _ _ _ _ Fth), (dot_vscale_r F _ _ _ _ _ _ _ _ Fth). ring.
+  Qed.
+
+  Lemma rq_scale G c u : c <> f0 -> homogeneous G -> rq' G (c *v u) = rq' G u.
+  Proof.
+    intros Hc HG. unfold rq, sdiv. rewrite HG, !dot_scale_both.
+    destruct (feqb << u, u >> f0) eqn:E.
+    - apply feqb_spec in E. rewrite E. replace (fmul (fmul c c) f0) with f0 by ring.
+      rewrite (proj2 (feqb_spec f0 f0) eq_refl). reflexivity.
+    - assert (Hm : << u, u >> <> f0) by (intros H; apply feqb_spec in H; congruence).
+      rewrite feqb_false by (apply mul_nonzero; [apply mul_nonzero; exact Hc|exact Hm]).
+      f_equal. field. split; assumption.
+  Qed.
+
+  Variable c : F.
+  Hypothesis Hc : c <> f0.
+
+  Lemma map_rq_scale Gs : Forall homogeneous Gs -> forall us,
+    map (fun Gu : (vec -> vec) * vec => rq' (fst Gu) (snd Gu)) (combine Gs (map (vscale F fmul c) us))
+    = map (fun Gu : (vec -> vec) * vec => rq' (fst Gu) (snd Gu)) (combine Gs us).
+  Proof.
+    induction 1 as [|G Gs HG _ IH]; intros us; [reflexivity|].
+    destruct us as [|u us]; [reflexivity|]. cbn [map combine fst snd]. rewrite rq_scale by assumption. now rewrite IH.
+  Qed.
+
+  Lemma apply_all_scale Gs : Forall homogeneous Gs -> forall us,
+    apply_all F Gs (map (vscale F fmul c) us) = map (vscale F fmul c) (apply_all F Gs us).
+  Proof.
+    unfold apply_all. induction 1 as [|G Gs HG _ IH]; intros us; [reflexivity|].
+    destruct us as [|u us]; [reflexivity|]. cbn [map combine fst snd]. rewrite HG. now rewrite IH.
+  Qed.
+
+  Variable Gs : list (vec -> vec).
+  Hypothesis HGs : Forall homogeneous Gs.
+  Notation pstep' := (pstep F f0 fadd fmul fdiv feqb close Gs).
+  Notation ploop' := (ploop F f0 fadd fmul fdiv feqb close Gs).
+
+  Definition scale_state (st : pstate F) : pstate F := mkP (map (vscale F fmul c) (pu st)) (pold st).
+
+  Lemma pstep_scale st :
+    pstep' (scale_state st) = match pstep' st with
+                              | PStop _ q => PStop F q | PFail _ => PFail F | PNext _ q s => PNext F q (scale_state s) end.
+  Proof.
+    unfold pstep, scale_state. cbn [pu pold]. rewrite map_rq_scale by exact HGs.
+    destruct (all_some _) as [qs|]; [|reflexivity].
+    destruct (all_close F close qs (pold st)); [reflexivity|]. rewrite apply_all_scale by exact HGs. reflexivity.
+  Qed.
+
+  Lemma ploop_scale fuel : forall st last, ploop' fuel (scale_state st) last = ploop' fuel st last.
+  Proof.
+    induction fuel as [|fuel IH]; intros st last; [reflexivity|]. cbn [ploop]. rewrite pstep_scale.
+    destruct (pstep' st) as [q| |q s]; try reflexivity. rewrite IH. reflexivity.
+  Qed.
+
+  (* the whole outcome (error kind, returned squared estimates, callback sequence) does not depend on the length
+     (nor on the sign) of the start vectors *)
+  Theorem operator_norm_scale_free v0s n :
+    operator_norm_sq F f0 fadd fmul fdiv feqb close Gs (map (vscale F fmul c) v0s) n
+    = operator_norm_sq F f0 fadd fmul fdiv feqb close Gs v0s n.
+  Proof.
+    unfold operator_norm_sq. destruct (Nat.eqb n 0); [reflexivity|].
+    assert (E : existsb (fun v => feqb << v, v >> f0) (map (vscale F fmul c) v0s) = existsb (fun v => feqb << v, v >> f0) v0s).
+    { induction v0s as [|v vs IH]; [reflexivity|]. cbn [map existsb]. rewrite IH. f_equal.
+      rewrite dot_scale_both. destruct (feqb << v, v >> f0) eqn:E.
+      - apply feqb_spec in E. rewrite E. apply feqb_spec. ring.
+      - apply feqb_false. apply mul_nonzero; [apply mul_nonzero; exact Hc|]. intros H. apply feqb_spec in H. congruence. }
+    rewrite E. destruct (existsb _ v0s); [reflexivity|].
+    rewrite map_map. change (mkP (map (vscale F fmul c) v0s) (map (fun _ => f0) v0s)) with (scale_state (mkP v0s (map (fun _ => f0) v0s))).
+    rewrite ploop_scale. reflexivity.
+  Qed.
+End ScaleFree.
+
+(* ================================================================ reals *)
+From Coq Require Import Reals Lra Psatz.
+Local Open Scope R_scope.
+
+Notation dotR := (dot R 0 Rplus Rmult).
+Notation vaddR := (vadd R Rplus).
+Notation vsubR := (vsub R Rminus Ropp).
+Notation vscaleR := (vscale R Rmult).
+Definition RF := RealField.Rfield.
+
+Lemma dotR_nonneg u : 0 <= dotR u u.
+Proof. induction u as [|a u IH]; cbn; [lra|nra]. Qed.
+
+Lemma dotR_zero v : dotR v v = 0 -> forall u, dotR u v = 0.
+Proof.
+  induction v as [|c v IH]; intros Hv u; [destruct u; reflexivity|].
+  destruct u as [|a u]; [reflexivity|]. cbn in *. pose proof (dotR_nonneg v).
+  assert (c = 0) by nra. assert (dotR v v = 0) by nra. rewrite IH by assumption. subst c. ring.
+Qed.
+
+(* Cauchy-Schwarz for finite sums *)
+Lemma cauchy_schwarz u v : dotR u v * dotR u v <= dotR u u * dotR v v.
+Proof.
+  set (a := dotR v v). set (b := dotR u v). set (X := dotR u u).
+  pose proof (dotR_nonneg (vsubR (vscaleR a u) (vscaleR b v))) as Hz.
+  rewrite (dot_vsub_l R _ _ _ _ _ _ _ _ RF), !(dot_vsub_r R _ _ _ _ _ _ _ _ RF) in Hz.
+  rewrite !(dot_vscale_l R _ _ _ _ _ _ _ _ RF), !(dot_vscale_r R _ _ _ _ _ _ _ _ RF) in Hz.
+  rewrite (dot_comm R _ _ _ _ _ _ _ _ RF v u) in Hz. fold a b X in Hz.
+  assert (Ha : 0 <= a) by apply dotR_nonneg.
+  destruct (Req_dec a 0) as [Ha0|Ha0].
+  - assert (b = 0) by (apply dotR_zero; exact Ha0). nra.
+  - assert (0 < a) by lra. assert (0 <= a * (a * X - b * b)) by nra. nra.
+Qed.
+
+Lemma ratio_monotone m0 m1 m2 m3 : 0 < m0 -> 0 < m2 -> 0 <= m1 -> 0 <= m3 ->
+  m1 * m1 <= m0 * m2 -> m2 * m2 <= m1 * m3 -> m1 / m0 <= m3 / m2.
+Proof.
+  intros H0 H2 H1 H3 Ha Hb.
+  assert (H1p : 0 < m1). { destruct (Req_dec m1 0); [subst; nra|lra]. }
+  assert (Hk : m1 * m2 <= m0 * m3).
+  { apply (Rmult_le_reg_r (m1 * m2)); [nra|]. nra. }
+  apply (Rmult_le_reg_r (m0 * m2)); [nra|]. unfold Rdiv.
+  replace (m1 * / m0 * (m0 * m2)) with (m1 * m2) by (field; lra).
+  replace (m3 * / m2 * (m0 * m2)) with (m0 * m3) by (field; lra). exact Hk.
+Qed.
+
+Section Rayleigh.
+  Variables A At : list R -> list R.
+  Hypothesis adjoint : forall u w, dotR (A u) w = dotR u (At w).
+  Definition G (u : list R) := At (A u).
+
+  Lemma dot_G u w : dotR u (G w) = dotR (A u) (A w).
+  Proof. unfold G. now rewrite adjoint. Qed.
+
+  (* the squared estimate never exceeds any s that bounds |A x|^2 / |x|^2 (no supremum needed) *)
+  Theorem rayleigh_below_norm u s : 0 < dotR u u -> (forall x, dotR (A x) (A x) <= s * dotR x x) ->
+    dotR u (G u) / dotR u u <= s.
+  Proof.
+    intros Hu Hs. rewrite dot_G. apply (Rmult_le_reg_r (dotR u u)); [exact Hu|].
+    replace (dotR (A u) (A u) / dotR u u * dotR u u) with (dotR (A u) (A u)) by (field; lra). apply Hs.
+  Qed.
+
+  Corollary unit_below_norm v s : dotR v v = 1 -> (forall x, dotR (A x) (A x) <= s * dotR x x) -> dotR v (G v) <= s.
+  Proof.
+    intros Hv Hs. pose proof (rayleigh_below_norm v s) as H. rewrite Hv in H. unfold Rdiv in H. rewrite Rinv_1, Rmult_1_r in H.
+    apply H; [lra|exact Hs].
+  Qed.
+
+  (* Rayleigh quotients do not decrease from u to G u *)
+  Theorem rayleigh_monotone u : 0 < dotR u u -> 0 < dotR (G u) (G u) ->
+    dotR u (G u) / dotR u u <= dotR (G u) (G (G u)) / dotR (G u) (G u).
+  Proof.
+    intros H0 H2. apply ratio_monotone; try assumption.
+    - rewrite dot_G. apply dotR_nonneg.
+    - rewrite dot_G. apply dotR_nonneg.
+    - apply cauchy_schwarz.
+    - assert (E : dotR (G u) (G u) = dotR (A u) (A (G u))).
+      { unfold G at 1. rewrite (dot_comm R _ _ _ _ _ _ _ _ RF (At (A u)) (G u)), <- adjoint. apply (dot_comm R _ _ _ _ _ _ _ _ RF). }
+      rewrite E at 1 2. rewrite !dot_G. apply cauchy_schwarz.
+  Qed.
+End Rayleigh.
+
+(* ---- the model's squared estimate over R is this Rayleigh quotient *)
+Definition Reqb' (a b : R) : bool := if Req_EM_T a b then true else false.
+Lemma rq_R_value Gop u q : rq R 0 Rplus Rmult Rdiv Reqb' Gop u = Some q -> dotR u u <> 0 /\ q = dotR u (Gop u) / dotR u u.
+Proof.
+  unfold rq, sdiv, Reqb'. destruct (Req_EM_T (dotR u u) 0); [discriminate|]. intros [= <-]. split; [assumption|reflexivity].
+Qed.
+
+Theorem model_estimates_monotone A At u q q' : (forall x w, dotR (A x) w = dotR x (At w)) ->
+  rq R 0 Rplus Rmult Rdiv Reqb' (G A At) u = Some q -> rq R 0 Rplus Rmult Rdiv Reqb' (G A At) (G A At u) = Some q' -> q <= q'.
+Proof.
+  intros Hadj H1 H2. apply rq_R_value in H1. apply rq_R_value in H2. destruct H1 as [Hn1 ->]. destruct H2 as [Hn2 ->].
+  apply rayleigh_monotone; [exact Hadj| |].
+  - pose proof (dotR_nonneg u). lra.
+  - pose proof (dotR_nonneg (G A At u)). lra.
+Qed.
+
+Theorem model_estimate_below_norm A At u q s : (forall x w, dotR (A x) w = dotR x (At w)) ->
+  (forall x, dotR (A x) (A x) <= s * dotR x x) -> rq R 0 Rplus Rmult Rdiv Reqb' (G A At) u = Some q -> q <= s.
+Proof.
+  intros Hadj Hs H1. apply rq_R_value in H1. destruct H1 as [Hn1 ->]. apply rayleigh_below_norm; try assumption.
+  pose proof (dotR_nonneg u). lra.
+Qed.
+
+(* ================================================================ operator matrices *)
+Notation rule := (matrix_norm_sq R 0 Rplus Rmax).
+
+(* [I I] (1x1 blocks): every entry has norm 1, the documented "upper bound" is 1, but |M x|^2 = 4 > 1 * |x|^2 = 2 for x = (1,1) *)
+Theorem horizontal_rule_refuted : exists x1 x2 : R,
+  rule [[1; 1]] = 1 /\ (forall y, (1 * y) * (1 * y) <= 1 * (y * y)) /\
+  (1 * x1 + 1 * x2) * (1 * x1 + 1 * x2) > rule [[1; 1]] * (x1 * x1 + x2 * x2).
+Proof.
+  assert (E : rule [[1; 1]] = 1) by (cbn; apply Rmax_left; lra).
+  exists 1, 1. rewrite E. repeat split; intros; nra.
+Qed.
+
+(* the vertical rule sqrt(sum of squares) is a bound: |[A1; ..; Ak] x|^2 = sum |Ai x|^2 <= (sum ni^2) |x|^2 *)
+Fixpoint rsum (l : list R) : R := match l with [] => 0 | a :: l' => a + rsum l' end.
+Theorem vertical_rule_bound X : forall ys n2s, Forall2 (fun y n2 => y <= n2 * X) ys n2s -> rsum ys <= rsum n2s * X.
+Proof. induction 1 as [|y n2 ys n2s Hy _ IH]; cbn; [lra|nra]. Qed.
+
+Lemma rule_two_rows a b : rule [[a]; [b]] = a + b.
+Proof. reflexivity. Qed.
+Lemma rule_three_rows a b c : rule [[a]; [b]; [c]] = a + (b + c).
+Proof. reflexivity. Qed.
+
+(* a rule that is a bound for the horizontal layout [A B]: |A x1 + B x2|^2 <= (a^2 + b^2)(|x1|^2 + |x2|^2) *)
+Theorem horizontal_sum_of_squares_bound u v a2 b2 X1 X2 : 0 <= a2 -> 0 <= b2 -> 0 <= X1 -> 0 <= X2 ->
+  dotR u u <= a2 * X1 -> dotR v v <= b2 * X2 -> dotR (vaddR u v) (vaddR u v) <= (a2 + b2) * (X1 + X2).
+Proof.
+  intros Ha Hb H1 H2 Hu Hv.
+  rewrite (dot_vadd_l R _ _ _ _ _ _ _ _ RF), !(dot_vadd_r R _ _ _ _ _ _ _ _ RF), (dot_comm R _ _ _ _ _ _ _ _ RF v u).
+  pose proof (cauchy_schwarz u v) as Hcs. pose proof (dotR_nonneg u). pose proof (dotR_nonneg v).
+  set (t := dotR u v) in *. set (U := dotR u u) in *. set (V := dotR v v) in *.
+  set (P := a2 * X2). set (Q := b2 * X1).
+  assert (HP : 0 <= P) by (unfold P; nra). assert (HQ : 0 <= Q) by (unfold Q; nra).
+  assert (Ht : t * t <= P * Q).
+  { apply Rle_trans with (U * V); [exact Hcs|]. unfold P, Q.
+    apply Rle_trans with ((a2 * X1) * (b2 * X2)); [apply Rmult_le_compat; assumption|]. right. ring. }
+  assert (H2t : 2 * t <= P + Q).
+  { destruct (Rle_dec (2 * t) (P + Q)) as [|Hn]; [assumption|]. exfalso. clearbody P Q t. pose proof (Rle_0_sqr (P - Q)) as Hsq. unfold Rsqr in Hsq.
+    assert (0 < (2 * t - (P + Q)) * (2 * t + (P + Q))) by (apply Rmult_lt_0_compat; lra). nra. }
+  unfold P, Q in H2t. nra.
+Qed.
